@@ -101,6 +101,10 @@ class Ctx:
     def prove(self, modules: list[str]):
         """regenerate the fact tables from /repo, build the Props / table-obligation modules and audit them;
         records obligations / discharged / broken (per module, so one failing table does not hide the other theorems)."""
+        with lean.BuildLock():      # facts + build + audit form one critical section: concurrent checks share Generated/ and .lake
+            return self._prove_locked(modules)
+
+    def _prove_locked(self, modules: list[str]):
         try:
             self.facts = lean.regenerate_facts()
         except SyntaxError as e:
